@@ -382,7 +382,8 @@ def _check_site(ctx, q, c, tbs, extra=None, site_label="", mtype=None, label=Non
                 ctx.check(ok, f"{nm} [{key}, {bits}-bit keys]: a value occupies `wper` = {wper!r} words of {bi!r} bytes", node,
                           None if ok else {"bytes per value": repr(C.norm(bnum))})
     # which binding decodes which matrix type: odd Nastran types (1 real, 3 complex) are single precision
-    if mtype is not None:
+    resolved = all(T.struct_items(T.strval(f_, tbs[32])) is not None for _path, (f_, *_r) in lvs)       # (else: reported above as an analysis error)
+    if mtype is not None and resolved:
         good, detail = True, None
         codes = set()
         for path, (f_, *_r) in lvs:
@@ -1033,14 +1034,15 @@ def r4_read_equals_skip(ctx):
         ntail = 0
         for lp, tail in al:
             why = []
-            ok = sk_loop is not None
-            if ok:
-                ren = C.renamer([(lp.frame, F.sym("LOOP"))])
-                ren2 = C.renamer([(sk_loop.frame, F.sym("LOOP"))])
-                ok = C.same_loops(C.map_loop(lp, ren), C.map_loop(sk_loop, ren2), why=why)
-            ctx.check(ok, "rdop2record loop: per record 4 + reclen + 4 bytes and the next key, exactly what skipop2record skips (payload read as "
-                          "n = reclen // bytes_per values of bytes_per bytes, on both sides of the cut-over)", lp.node,
-                      None if ok else {"first difference": why[:1], "loop": C.show(lp.items)[:300]})
+            if sr is not None:          # (a skipper that could not be walked has been reported as an analysis error)
+                ok = sk_loop is not None
+                if ok:
+                    ren = C.renamer([(lp.frame, F.sym("LOOP"))])
+                    ren2 = C.renamer([(sk_loop.frame, F.sym("LOOP"))])
+                    ok = C.same_loops(C.map_loop(lp, ren), C.map_loop(sk_loop, ren2), why=why)
+                ctx.check(ok, "rdop2record loop: per record 4 + reclen + 4 bytes and the next key, exactly what skipop2record skips (payload read as "
+                              "n = reclen // bytes_per values of bytes_per bytes, on both sides of the cut-over)", lp.node,
+                          None if ok else {"first difference": why[:1], "loop": C.show(lp.items)[:300]})
             t = C.total(_until_exit(tail), "B")
             ntail += t is not None and C.same(t, 2 * KEY)
         ctx.check(ntail == len(al) and ntail > 0, "rdop2record: two trailing keys are skipped on every exit that follows a record loop", rr.fn)
